@@ -47,6 +47,20 @@ def generate(rng, tier):
         p["period"] = 0.2
     if algo == "dba":
         p["max_distance"] = 4
+    if rng.random() < 0.15 and not binary_only:
+        # a "wide" node: one variable with a dozen constraints (long tuples/lists on the wire)
+        hub = rng.choice(case["variables"])["name"]
+        others = [v["name"] for v in case["variables"] if v["name"] != hub]
+        size = {v["name"]: len(case["domains"][v["domain"]]) for v in case["variables"]}
+        for j in range(rng.randint(11, 13)):
+            scope = [hub] if (not others or rng.random() < 0.5) else [hub, rng.choice(others)]
+            k = 1
+            for x in scope:
+                k *= size[x]
+            case["constraints"].append({"name": f"w{j}", "scope": scope,
+                                        "table": [rng.randrange(0, 10) for _ in range(k)],
+                                        "render": "matrix"})
+        case["wide"] = True
     case["algo"] = algo
     case["params"] = p
     case["workload"] = "solve"
